@@ -36,7 +36,7 @@ def candidates_c04():
 
 def env_model(name, grid, cands, mandatory, maxopt, lats, folds, modes, delays=(0,), eplens=(0,), spaces=("box",),
               bads=((0, "ok"),), maxcalls=4, reset_anywhere=True, clock="after_newdate", order="by_time",
-              null="in_space", invariants=(), properties=(), trade=False, tick=1, daylen=DAY):
+              null="in_space", invariants=(), properties=(), trade=False, tick=1, daylen=DAY, resetlens=(0,)):
     defs = {
         "Grid": list(grid),
         "Cand": list(cands),
@@ -47,6 +47,7 @@ def env_model(name, grid, cands, mandatory, maxopt, lats, folds, modes, delays=(
                                              for m in modes) + "}"),
         "Delays": set(delays),
         "EpLens": set(eplens),
+        "ResetLens": set(resetlens),
         "Spaces": set(spaces),
         "Bads": tlagen.Raw("{" + ", ".join('[at |-> %d, cls |-> "%s"]' % b for b in bads) + "}"),
     }
